@@ -2020,7 +2020,9 @@ def read(  # pylint: disable=too-many-arguments
         reader,
         resolver=resolver,
         data_readers=data_readers,
-        eof=eof,
+        # End of input is signalled inside the reader by returning this marker, which
+        # must not be a value a form can read as (such as the caller's `eof` value)
+        eof=EOF,
         features=features,
         process_reader_cond=process_reader_cond,
         default_data_reader_fn=default_data_reader_fn,
